@@ -195,7 +195,9 @@ pub fn trigger(p: &MuxPlan, id: u64) -> &'static str {
     for c in &p.h2_clients {
         for r in c.requests() {
             // (padded HEADERS followed by CONTINUATION used to be a trigger: fixed in /repo, see known_findings "fixed:")
-            let t = if matches!(r.body.end, EndMode::Trailers(_)) { Some("h2_request_trailers_to_h1_backend") } else { None };
+            // (trailers behind a body WITHOUT content-length used to be part of this trigger: fixed in /repo; what is left is
+            // the Content-Length case, where the trailer line is written behind the body toward an H1 backend)
+            let t = if matches!(r.body.end, EndMode::Trailers(_)) && r.body.content_length && r.body.len > 0 { Some("h2_request_trailers_to_h1_backend") } else { None };
             if let Some(t) = t {
                 if r.id == id { return t; }
                 // a defect hit by one stream takes the shared backend/frontend connection with it
